@@ -20,6 +20,23 @@ pub fn format_stub(_a: std::fmt::Arguments<'_>) -> String {
     String::new()
 }
 
+/// std's stable sort (`sort_by`, `sort_by_key`) replaced by a plain stable insertion sort: the driftsort
+/// machinery (scratch buffers, bidirectional merges) explodes under CBMC even for 2 elements.
+/// Contract relied on: "a stable sort". Bounded to slices of <= 4 elements (checked).
+pub fn stable_sort_stub<T, F: FnMut(&T, &T) -> bool, BufT: core::slice::sort::stable::BufGuard<T>>(v: &mut [T], is_less: &mut F) {
+    let n = v.len();
+    assert!(n <= 4, "sort stub: more than 4 elements");
+    let mut i = 1;
+    while i < n {
+        let mut j = i;
+        while j > 0 && is_less(&v[j], &v[j - 1]) {
+            v.swap(j, j - 1);
+            j -= 1;
+        }
+        i += 1;
+    }
+}
+
 // ---- symbolic inputs ------------------------------------------------------------------------
 
 pub fn any_value_type() -> ValueType {
